@@ -3,7 +3,9 @@
 Programs are JSON-able ASTs (nested lists, first element = tag) so that cases are replayable:
 
   literals   ["int", 5] ["dec", "-2.5"] ["dbl", "2.5"|"INF"|"-INF"|"NaN"] ["flt", "1.5"] ["str", "a"]
-             ["bool", true] ["unt", "3"] (xs:untypedAtomic) ["empty"]
+             ["bool", true] ["unt", "3"] (xs:untypedAtomic) ["uri", "b"] (xs:anyURI) ["empty"]
+  types      ["instance", e, "xs:boolean"] (instance of)   ["call", "xs:integer", [e]] (constructor)
+  steps      ["step", "a"]  child::a of the context node (only the root element r has children)
   nodes      ["nodes", key]            a fixed selection of element nodes of DOC (see DOC_PATHS)
   sequences  ["seq", e1, e2, ...]  ["to", a, b]
   operators  ["neg", e] ["arith", "+|-|*", a, b] ["vcmp", "eq|ne|lt|le|gt|ge", a, b]
@@ -22,7 +24,8 @@ Programs are JSON-able ASTs (nested lists, first element = tag) so that cases ar
 
 Values: a sequence is a python list of items; an item is a tuple
   ('i', int) xs:integer | ('d', Fraction) xs:decimal | ('f', float) xs:float | ('D', float) xs:double
-  ('s', str) | ('b', bool) | ('u', str) xs:untypedAtomic | ('n', int) element node #k of DOC
+  ('s', str) | ('b', bool) | ('u', str) xs:untypedAtomic | ('a', str) xs:anyURI
+  ('n', int) element node #k of DOC (-1 = the root element r)
   ('A', tuple_of_member_lists) array | FnItem instance (function item)
 
 Errors are XPError(code).  Evaluation is strict (every subexpression is evaluated), so a program
@@ -47,6 +50,7 @@ DOC_PATHS = {          # key -> (XPath text, node ids in document order)
     'none': ('/r/zz', []),
     'a1': ('/r/a[1]', [0]),
     'd': ('/r/d', [5]),
+    'r': ('/r', [-1]),
 }
 
 
@@ -254,7 +258,7 @@ def item_to_string(it) -> str:
         return decimal_to_string(it[1])
     if t in 'fD':
         return double_to_string(it[1])
-    if t in 'su':
+    if t in 'sua':
         return it[1]
     if t == 'b':
         return 'true' if it[1] else 'false'
@@ -274,7 +278,8 @@ class FnItem:
         self.ident = FnItem._count
 
 
-_TYPE_TAGS = {'xs:integer': 'i', 'xs:string': 's', 'xs:boolean': 'b', 'xs:decimal': 'id', 'xs:double': 'D'}
+_TYPE_TAGS = {'xs:integer': 'i', 'xs:string': 's', 'xs:boolean': 'b', 'xs:decimal': 'id', 'xs:double': 'D',
+              'xs:float': 'f', 'xs:untypedAtomic': 'u', 'xs:anyURI': 'a', 'xs:anyAtomicType': 'idfDsbua'}
 
 
 def matches_type(seq, t: str) -> bool:
@@ -307,6 +312,14 @@ def is_node(it) -> bool:
 # --------------------------------------------------------------------------
 # atomization, EBV, comparisons
 # --------------------------------------------------------------------------
+def node_string(it) -> str:
+    return ''.join(t for _, t in DOC_CHILDREN) if it[1] == -1 else DOC_CHILDREN[it[1]][1]
+
+
+def node_name(it) -> str:
+    return 'r' if it[1] == -1 else DOC_CHILDREN[it[1]][0]
+
+
 def atomize(seq):
     out = []
     for it in seq:
@@ -316,7 +329,7 @@ def atomize(seq):
             for m in it[1]:
                 out.extend(atomize(m))
         elif is_node(it):
-            out.append(('u', DOC_CHILDREN[it[1]][1]))
+            out.append(('u', node_string(it)))
         else:
             out.append(it)
     return out
@@ -345,7 +358,7 @@ def eq_items(a, b):
     if is_num(a) and is_num(b):
         return num_eq(a, b)
     ta, tb = a[0], b[0]
-    if ta in 'su' and tb in 'su':
+    if ta in 'sua' and tb in 'sua':
         return a[1] == b[1]
     if ta == 'b' and tb == 'b':
         return a[1] == b[1]
@@ -356,7 +369,7 @@ def lt_items(a, b):
     if is_num(a) and is_num(b):
         return num_lt(a, b)
     ta, tb = a[0], b[0]
-    if ta in 'su' and tb in 'su':
+    if ta in 'sua' and tb in 'sua':
         return a[1] < b[1]            # codepoint collation == python str ordering
     if ta == 'b' and tb == 'b':
         return a[1] < b[1]
@@ -737,7 +750,7 @@ def fn_string(ip, a):
     if is_fn(s[0]) or is_array(s[0]):
         raise XPError('FOTY0014', 'string of a function item')
     if is_node(s[0]):
-        return [('s', DOC_CHILDREN[s[0][1]][1])]
+        return [('s', node_string(s[0]))]
     return [('s', item_to_string(s[0]))]
 
 
@@ -780,6 +793,58 @@ def fn_substring(ip, a):
         return [('s', ''.join(c for p, c in enumerate(s, 1) if start <= p))]
     end = start + round_half_up(as_double_arg(a[2]))[1]
     return [('s', ''.join(c for p, c in enumerate(s, 1) if start <= p < end))]
+
+
+def fn_xs_integer(ip, a):
+    """xs:integer($arg as xs:anyAtomicType?) - casting per F&O 19.1/19.2 for the source types generated"""
+    it = one_atomic(a[0], 'xs:integer', empty_ok=True)
+    if it is None:
+        return []
+    t, v = it
+    if t == 'b':
+        return [('i', 1 if v else 0)]
+    if t == 'i':
+        return [it]
+    if t == 'd':
+        return [('i', int(v))]                      # truncation toward zero
+    if t in 'fD':
+        if math.isnan(v) or math.isinf(v):
+            raise XPError('FOCA0002', 'cannot cast NaN / INF to xs:integer')
+        return [('i', int(v))]
+    if t in 'su':
+        return [cast_integer(v)]
+    raise XPError('XPTY0004', 'cannot cast to xs:integer')
+
+
+def fn_name(ip, a):
+    s = a[0]
+    if len(s) > 1 or (s and not is_node(s[0])):
+        raise XPError('XPTY0004', 'name: a node is required')
+    return [('s', node_name(s[0]) if s else '')]
+
+
+def fn_array_sort(ip, a):
+    """array:sort: the members (sequences) sorted by the atomized key of each member, stable"""
+    if len(a[0]) != 1 or not is_array(a[0][0]):
+        raise XPError('XPTY0004', 'array:sort: array required')
+    members = [list(m) for m in a[0][0][1]]
+    if len(a) >= 2 and a[1]:
+        raise Budget('sort with an explicit collation is not modelled')
+    if len(a) == 3:
+        f = _one_fn(a[2], 1)
+        keys = [atomize(ip.call(f, [m])) for m in members]
+    else:
+        keys = [atomize(m) for m in members]
+    order = []
+    for i in range(len(members)):
+        j = len(order)
+        while j > 0 and sort_key_lt(keys[i], keys[order[j - 1]]):
+            j -= 1
+        order.insert(j, i)
+    for i in range(len(members)):
+        for j in range(i + 1, len(members)):
+            sort_key_lt(keys[i], keys[j])
+    return [('A', tuple(tuple(members[i]) for i in order))]
 
 
 def fn_string_length(ip, a):
@@ -915,6 +980,8 @@ BUILTINS = {
     ('data', 1): fn_data, ('string', 1): fn_string, ('round', 1): fn_round, ('abs', 1): fn_abs,
     ('concat', 2): fn_concat, ('concat', 3): fn_concat, ('concat', 4): fn_concat, ('concat', 5): fn_concat,
     ('substring', 2): fn_substring, ('substring', 3): fn_substring,
+    ('xs:integer', 1): fn_xs_integer, ('name', 1): fn_name,
+    ('array:sort', 1): fn_array_sort, ('array:sort', 2): fn_array_sort, ('array:sort', 3): fn_array_sort,
     ('string-length', 1): fn_string_length, ('upper-case', 1): fn_upper_case, ('lower-case', 1): fn_lower_case,
     ('for-each', 2): fn_for_each, ('filter', 2): fn_filter, ('fold-left', 3): fn_fold_left,
     ('fold-right', 3): fn_fold_right, ('for-each-pair', 3): fn_for_each_pair, ('apply', 2): fn_apply,
@@ -1006,6 +1073,21 @@ class Interp:
 
     def ev_empty(self, n, env, focus):
         return []
+
+    def ev_uri(self, n, env, focus):
+        return [('a', n[1])]
+
+    def ev_instance(self, n, env, focus):
+        return [('b', matches_type(self.ev(n[1], env, focus), n[2]))]
+
+    def ev_step(self, n, env, focus):
+        if focus is None:
+            raise XPError('XPDY0002', 'context item is absent')
+        if not is_node(focus[0]):
+            raise XPError('XPTY0020', 'context item is not a node')
+        if focus[0][1] != -1:
+            return []
+        return [('n', i) for i, (name, _) in enumerate(DOC_CHILDREN) if name == n[1] or n[1] == '*']
 
     def ev_nodes(self, n, env, focus):
         return [('n', i) for i in DOC_PATHS[n[1]][1]]
@@ -1181,6 +1263,10 @@ class Interp:
 
     def ev_call(self, n, env, focus):
         name, args = n[1], n[2]
+        if not args and name in ('name', 'string'):
+            if focus is None:
+                raise XPError('XPDY0002', 'context item is absent')
+            return (fn_name if name == 'name' else fn_string)(self, [[focus[0]]])
         impl = self.builtin(name, len(args))
         if any(a[0] == '?' for a in args):
             return [self._partial(FnItem(len(args), impl, name), args, env, focus, n, 'partial-static')]
@@ -1322,6 +1408,12 @@ def render(n) -> str:
         return f'xs:untypedAtomic({_q(n[1])})'
     if t == 'empty':
         return '()'
+    if t == 'uri':
+        return f'xs:anyURI({_q(n[1])})'
+    if t == 'instance':
+        return f'({render(n[1])} instance of {n[2]})'
+    if t == 'step':
+        return n[1]
     if t == 'nodes':
         return DOC_PATHS[n[1]][0]
     if t == 'seq':
@@ -1372,7 +1464,7 @@ def render(n) -> str:
     raise ValueError(f'unknown AST node {t!r}')
 
 
-_POSTFIX_OK = ('var', 'call', 'filter', 'dyn', 'str', 'array', 'empty', 'ctx')
+_POSTFIX_OK = ('var', 'call', 'filter', 'dyn', 'str', 'array', 'empty', 'ctx', 'uri')
 
 
 def _primary(n) -> str:
@@ -1583,6 +1675,13 @@ def self_test():
     assert val(['arrow', _I(1, 2), ['ref', 'subsequence', 2], ['int', 2]]) == ints(2)
     assert val(['map', ['map', _I(5, 6, 7), ['ref', 'position', 0]], ['dyn', ['ctx'], []]]) == ints(1, 2, 3)
     assert val(['map', ['map', _I(5, 6), ['ref', 'string', 0]], ['dyn', ['ctx'], []]]) == strs('5', '6')
+    assert val(['instance', ['bool', True], 'xs:boolean']) == [['b', True]] and val(['instance', ['int', 1], 'xs:boolean']) == [['b', False]]
+    assert val(['instance', ['int', 1], 'xs:decimal']) == [['b', True]] and val(['instance', ['flt', '1.0'], 'xs:double']) == [['b', False]]
+    assert val(['call', 'xs:integer', [['bool', True]]]) == ints(1) and val(['call', 'xs:integer', [['dec', '-1.5']]]) == ints(-1)
+    assert val(['map', ['nodes', 'r'], ['call', 'count', [['step', 'a']]]]) == ints(3)
+    assert val(['map', ['nodes', 'a'], ['call', 'name', []]]) == strs('a', 'a', 'a')
+    assert val(['call', 'sort', [['seq', ['uri', 'b'], ['str', 'a'], ['unt', 'c']]]]) == [['s', 'a'], ['a', 'b'], ['u', 'c']]
+    assert val(['call', 'array:sort', [['array', [['int', 3], ['int', 1], ['int', 2]]]]]) == [['A', [[['i', 1]], [['i', 2]], [['i', 3]]]]]
     assert render(['filter', ['var', 'x'], ['int', 1]]) == '$x[1]'
     assert render(['filter', ['int', 3], ['int', 1]]) == '(3)[1]'
     assert render(['dyn', ['inline', [], ['int', 1]], []]) == '(function() { 1 })()'
